@@ -85,6 +85,27 @@ fn vp_native_multipart_roundtrip() {
             }
         }
     } } } }
+    // a form that carries an earlier form as data (a captured upload being forwarded, built on the same thread): the delimiter of
+    // the outer form must not occur in its parts' data, so the outer body decodes to exactly the outer parts
+    {
+        let mut prev: Vec<Vec<u8>> = vec![b"first".to_vec()];
+        for round in 0..4usize {
+            let (body, boundary) = {
+                let mut b = MultipartBuilder::new().with_text("note", "forwarded");
+                for (i, d) in prev.iter().enumerate() { b = b.with_file(MultipartFile::new(if i == 0 { "capture0" } else { "capture1" }, d)); }
+                let mut mp = b.build().unwrap();
+                let boundary = mp.content_type().unwrap().unwrap().strip_prefix("multipart/form-data; boundary=").unwrap().to_string();
+                let mut body = Vec::new(); mp.write(&mut body).unwrap();
+                (body, boundary)
+            };
+            let got = decode(&body, &boundary).unwrap_or_else(|e| panic!("a form carrying an earlier form as data does not decode ({}), round {}", e, round));
+            cases += 1;
+            assert_eq!(got.len(), 1 + prev.len(), "a form carrying an earlier form's body as file data decodes to {} parts instead of {} (round {}): its delimiter occurs inside its own data", got.len(), 1 + prev.len(), round);
+            for (i, d) in prev.iter().enumerate() { assert!(got.iter().any(|p| p.name == format!("capture{}", i) && p.data == *d), "file capture{} came back changed (round {})", i, round); }
+            let look_alike = format!("\r\n--{}\r\nContent-Disposition: form-data; name=\"x\"\r\n\r\ninjected\r\n--{}--", boundary, boundary).into_bytes();
+            prev = vec![body, look_alike];
+        }
+    }
     // larger forms, names and filenames with blanks / non-ASCII / '=', MIME types with parameters, empty and 1-byte files
     let names = ["plain", "with space", "ünï-cødé", "a=b", "x"];
     let mimes = [None, Some("text/plain; charset=utf-8"), Some("application/x-custom+json"), Some("application/x-demo; token=AbCdEF"), Some("image/svg+xml"), Some("multipart/mixed; boundary=InnerBOUNDARY42")];
